@@ -1,5 +1,5 @@
 (* C09 -- model of `as_dict(full=True)` + JSONEncoder for the object skeleton (models.py, docstrings/models.py,
-   encoders.py), the shape grammar of its output, the known-gap predicates, sexp codecs and run_C09.
+   encoders.py), the shape grammar of its output, sexp codecs and run_C09.
    The published schema (schema_root, schema_defs) and the enumeration values come from Gen/C09_schema.v, which is
    regenerated from /repo/docs/schema.json and /repo/src/_griffe/enumerations.py on every run.
    Executable definitions only. *)
@@ -135,74 +135,39 @@ Fixpoint loadable (t : obj) : bool :=
       && forallb (fun nm => loadable (snd nm)) members
   end.
 
-(* ---------- known gaps (findings C09-F1..F5) as decidable predicates on one node ---------- *)
-
-Definition gap_section_kinds : list string := ["functions"; "classes"; "modules"].
-
-Definition gapF1 (t : obj) : bool :=   (* namespace package: filepath is a list *)
-  match t with OObj _ _ _ (FPList _) _ _ _ _ _ _ _ => true | _ => false end.
-Definition gapF2 (t : obj) : bool :=   (* alias without (truthy) line number *)
-  match t with OAlias _ _ _ lineno _ => match truthy_z lineno with None => true | Some _ => false end | _ => false end.
-Definition node_doc (t : obj) : option docstring :=
-  match t with OObj _ _ _ _ _ _ _ _ doc _ _ => doc | _ => None end.
-Definition gapF3 (t : obj) : bool :=   (* docstring without line number (inspected objects) *)
-  match node_doc t with Some d => match ds_lineno d with None => true | Some _ => false end | None => false end.
-Definition gapF4 (t : obj) : bool :=   (* section kinds functions / classes / modules *)
-  match node_doc t with Some d => existsb (fun s => str_in (sec_kind s) gap_section_kinds) (ds_parsed d) | None => false end.
-Definition gapF5 (t : obj) : bool :=   (* deprecated / admonition sections: value is one element dict *)
-  match node_doc t with
-  | Some d => existsb (fun s => match sec_value s with SVElem _ => true | _ => false end) (ds_parsed d)
-  | None => false
-  end.
-
-Definition local_gaps (t : obj) : list bool := [gapF1 t; gapF2 t; gapF3 t; gapF4 t; gapF5 t].
-Definition local_gap (t : obj) : bool := gapF1 t || gapF2 t || gapF3 t || gapF4 t || gapF5 t.
-
-Definition node_members (t : obj) : list (string * obj) :=
-  match t with OObj _ _ _ _ _ _ _ _ _ _ m => m | _ => [] end.
-
-Fixpoint known_gap (t : obj) : bool :=
-  match t with
-  | OAlias _ _ _ _ _ => local_gap t
-  | OObj _ _ _ _ _ _ _ _ _ _ members => local_gap t || existsb (fun nm => known_gap (snd nm)) members
-  end.
-
-(* ---------- the shape grammar of encoder output; g = true keeps the known gaps, g = false removes them ---------- *)
+(* ---------- the shape grammar of encoder output ----------
+   (the former known gaps C09-F1..F5 were repaired on the schema side; the grammar describes everything the encoder emits) *)
 
 Definition sh_opt_int : shape := ShUnion [ShInt; ShNull].
 Definition sh_annotation : shape := ShUnion [ShNull; ShStr; ShMap ShAny].
 Definition sh_lits (l : list string) : shape := ShUnion (map ShLit l).
 
-Definition section_kinds (g : bool) : list string :=
-  if g then enc_section_kinds else filter (fun k => negb (str_in k gap_section_kinds)) enc_section_kinds.
-
-Definition sh_section (g : bool) : shape :=
-  ShObj [("kind", (true, sh_lits (section_kinds g)));
-         ("value", (true, ShUnion ([ShStr; ShArr ShAny] ++ (if g then [ShMap ShAny] else []))));
+Definition sh_section : shape :=
+  ShObj [("kind", (true, sh_lits enc_section_kinds));
+         ("value", (true, ShUnion [ShStr; ShArr ShAny; ShMap ShAny]));
          ("title", (false, ShStr))].
 
-Definition sh_docstring (g : bool) : shape :=
-  ShObj [("value", (true, ShStr)); ("lineno", (true, if g then sh_opt_int else ShInt)); ("endlineno", (true, sh_opt_int));
-         ("parsed", (true, ShArr (sh_section g)))].
+Definition sh_docstring : shape :=
+  ShObj [("value", (true, ShStr)); ("lineno", (true, sh_opt_int)); ("endlineno", (true, sh_opt_int));
+         ("parsed", (true, ShArr sh_section))].
 
 Definition sh_decorator : shape :=
   ShObj [("value", (true, sh_annotation)); ("lineno", (true, ShInt)); ("endlineno", (true, sh_opt_int))].
 
-(* parameter docstrings are not described by the schema at all, so they keep their gaps in both grammars *)
 Definition sh_parameter : shape :=
   ShObj [("name", (true, ShStr)); ("annotation", (true, sh_annotation)); ("kind", (true, sh_lits enc_parameter_kinds));
-         ("default", (true, sh_annotation)); ("docstring", (false, sh_docstring true))].
+         ("default", (true, sh_annotation)); ("docstring", (false, sh_docstring))].
 
-Definition sh_common (g : bool) (kind : string) : list (string * (bool * shape)) :=
+Definition sh_common (kind : string) : list (string * (bool * shape)) :=
   [("kind", (true, ShLit kind)); ("name", (true, ShStr)); ("path", (true, ShStr));
-   ("filepath", (true, if g then ShUnion [ShStr; ShArr ShStr] else ShStr));
+   ("filepath", (true, ShUnion [ShStr; ShArr ShStr]));
    ("relative_filepath", (true, ShStr)); ("relative_package_filepath", (true, ShStr));
-   ("lineno", (false, ShInt)); ("endlineno", (false, ShInt)); ("docstring", (false, sh_docstring g));
+   ("lineno", (false, ShInt)); ("endlineno", (false, ShInt)); ("docstring", (false, sh_docstring));
    ("labels", (true, ShArr ShStr)); ("members", (true, ShMap (ShRef "object")))].
 
-Definition sh_alias (g : bool) : shape :=
+Definition sh_alias : shape :=
   ShObj [("kind", (true, ShLit "alias")); ("name", (true, ShStr)); ("target_path", (true, ShStr)); ("path", (true, ShStr));
-         ("lineno", (negb g, ShInt)); ("endlineno", (false, ShInt))].
+         ("lineno", (false, ShInt)); ("endlineno", (false, ShInt))].
 
 Definition sh_spec (k : string) : list (string * (bool * shape)) :=
   if String.eqb k "class" then [("bases", (true, ShArr sh_annotation)); ("decorators", (true, ShArr sh_decorator))]
@@ -211,18 +176,18 @@ Definition sh_spec (k : string) : list (string * (bool * shape)) :=
   else if String.eqb k "attribute" then [("value", (false, sh_annotation)); ("annotation", (false, sh_annotation))]
   else [].
 
-Definition sh_object (g : bool) (k : string) : shape := ShObj (sh_common g k ++ sh_spec k).
+Definition sh_object (k : string) : shape := ShObj (sh_common k ++ sh_spec k).
 
-Definition G_enc (g : bool) : grammar :=
-  [("object", ShUnion [sh_alias g; sh_object g "module"; sh_object g "class"; sh_object g "function"; sh_object g "attribute"])].
+Definition G_enc : grammar :=
+  [("object", ShUnion [sh_alias; sh_object "module"; sh_object "class"; sh_object "function"; sh_object "attribute"])].
 
 Definition root_nt : string := "object".
 Definition incl_fuel : nat := 40.
 
 (* the inclusion check of the grammar in the published schema *)
-Definition grammar_in_schema (g : bool) : bool :=
-  match lookup root_nt (G_enc g) with
-  | Some sh => incl (G_enc g) schema_root schema_defs root_nt incl_fuel sh schema_root
+Definition grammar_in_schema : bool :=
+  match lookup root_nt G_enc with
+  | Some sh => incl G_enc schema_root schema_defs root_nt incl_fuel sh schema_root
   | None => false
   end.
 
@@ -361,9 +326,9 @@ Definition of_verdict (v : option bool) : sexp :=
 
 (* run_C09:
    ("validate" doc)  -> (verdict)                       model of the schema validator on one document
-   ("member" doc)    -> (in G_enc true, in G_enc false)  grammar membership, with and without the known gaps
-   ("enc" tree)      -> (json loadable known_gap (F1..F5 of the root node))
-   ("incl")          -> (grammar_in_schema false, grammar_in_schema true) *)
+   ("member" doc)    -> (in G_enc)                       grammar membership
+   ("enc" tree)      -> (json loadable)
+   ("incl")          -> (grammar_in_schema) *)
 Definition run_C09 (s : sexp) : sexp :=
   match s with
   | SList [SStr "validate"; d] =>
@@ -373,16 +338,14 @@ Definition run_C09 (s : sexp) : sexp :=
       end
   | SList [SStr "member"; d] =>
       match json_of d with
-      | Some j => SList [of_bool (mem (G_enc true) (mem_fuel j) (ShRef root_nt) j);
-                         of_bool (mem (G_enc false) (mem_fuel j) (ShRef root_nt) j)]
+      | Some j => SList [of_bool (mem G_enc (mem_fuel j) (ShRef root_nt) j)]
       | None => bad_input
       end
   | SList [SStr "enc"; t] =>
       match obj_of t with
-      | Some t' => SList [sexp_of_json (enc_full t'); of_bool (loadable t'); of_bool (known_gap t');
-                          SList (map of_bool (local_gaps t'))]
+      | Some t' => SList [sexp_of_json (enc_full t'); of_bool (loadable t')]
       | None => bad_input
       end
-  | SList [SStr "incl"] => SList [of_bool (grammar_in_schema false); of_bool (grammar_in_schema true)]
+  | SList [SStr "incl"] => SList [of_bool grammar_in_schema]
   | _ => bad_input
   end.
